@@ -9,6 +9,7 @@ import pl
 
 sys.path.insert(0, os.path.join(vf.VERIF, "gen"))
 import c19_findall as cf  # noqa: E402
+import c19_select_sublist as css  # noqa: E402
 
 META = {
     "id": "C19",
@@ -20,7 +21,7 @@ META = {
             "The real findall/all builtins are recorded on generated programs (findall_target dump, results, enumerate_branches outputs, list given to _select_sublist, outputs) and compared with ModelBranches (eb, mult, all_proofs+sort_mx, findall_model, all_out); the hypotheses of C19_findall_lists_partition (copy_node/add_and keys have the value of the conjunction) and its conclusion are judged on the real data by exhaustive assignments. "
             "Whole findall/3, all/3 programs are judged against exhaustive world enumeration done in the harness (exact rationals)."
             " The rest of the findall machinery is modelled too (enumerate_branches, get_node_multiplicity, the max-node ordering, findall/all output lists): branches are equivalent to the node (acyclic graphs, and cyclic graphs under any stable model), and the result lists partition the assignments in the explicit sort_mx order; tied by recording the real builtins' calls.",
-    "note": "Trusted: Coq kernel+vm_compute; hand model of _select_sublist (sampled correspondence); the harness world enumerator for propositional findall programs; "
+    "note": "Trusted: Coq kernel+vm_compute; _select_sublist and BaseFormula.negate are TRANSLATED from the source on every run (gen/c19_select_sublist.py, fail-closed; readings of the Python constructs in SelectPrelude.v) and the translation is proved equal to the hand model (C19_generated_is_model), both also sampled against the real generator; the harness world enumerator for propositional findall programs; "
             "hand model of enumerate_branches/get_node_multiplicity/_builtin_findall_base/_builtin_all (sampled correspondence on recorded calls); target node numbering abstracted (pn, cn) under the builder-correctness hypothesis checked per call; "
             "solution ORDER: the model fixes 'stable sort by mx'; that this is Prolog order is NOT proved (known findings).",
 }
@@ -32,6 +33,22 @@ Definition keq (a b : key) : bool := match a, b with None, None => true | Some x
 Fixpoint leq {A} (e : A -> A -> bool) (x y : list A) : bool :=
   match x, y with [], [] => true | a :: x', b :: y' => e a b && leq e x' y' | _, _ => false end.
 Definition eeq (a b : list Z * list key) : bool := leq Z.eqb (fst a) (fst b) && leq keq (snd a) (snd b).
+"""
+
+
+def generate(ctx):
+    """Regenerate coq/theories/C19/GenSelectSublist.v from vf.REPO (fail-closed translator).  On a
+    translator failure a stub without definitions is written first, so that the theorems about the
+    generated model cannot be discharged against a stale file; then the error is re-raised."""
+    try:
+        text = css.translate(vf.REPO)
+    except Exception as e:
+        ctx.generate("C19/GenSelectSublist.v", css.stub("%s: %s" % (type(e).__name__, e)))
+        raise
+    ctx.generate("C19/GenSelectSublist.v", text)
+
+
+HEADER_GEN = """From PL.C19 Require Import SelectPrelude GenSelectSublist.
 """
 
 
@@ -69,6 +86,8 @@ def val(assign, k):
 
 def run_select_sublist(ctx):
     from problog.engine_builtin import _select_sublist
+    from problog.formula import LogicFormula
+    real_target = LogicFormula()     # its TRUE / FALSE / negate are the BaseFormula members the translator reads
     n = ctx.n(300, 6000)
     cases, metas = [], []
     for _ in range(n):
@@ -84,7 +103,7 @@ def run_select_sublist(ctx):
                 k = ctx.rng.choice([1, 2, 3, 4, 5]) * ctx.rng.choice([1, 1, -1])
             lst.append((ctx.rng.randrange(1, 4), k))
         try:
-            out = [(list(t), list(ns)) for t, ns in _select_sublist(lst, FakeTarget())]
+            out = [(list(t), list(ns)) for t, ns in _select_sublist(lst, real_target)]
         except Exception as e:
             ctx.violation("_select_sublist raised %r on %r" % (e, lst), {"lst": lst}, klass=None)
             continue
@@ -115,6 +134,17 @@ def run_select_sublist(ctx):
     ctx.cov["select_sublist_model_vs_impl_agree"] = len(cases) - len(bad)
     for i in bad[:5]:
         ctx.broken.append("correspondence:ModelSelectSublist.select_sublist vs engine_builtin._select_sublist on %r" % (metas[i],))
+    # the GENERATED definition (translator output) against the same observed outputs: validates the translator's
+    # reading of the Python constructs (SelectPrelude.v) independently of the equality proof in ProofsGen.v
+    try:
+        bad = ctx.coq_failing(HEADER + HEADER_GEN, [c.replace("(select_sublist ", "(select_sublist_gen ", 1) for c in cases], name="ssg")
+    except RuntimeError as e:
+        ctx.broken.append("correspondence:GenSelectSublist does not evaluate")
+        ctx.notes.append(str(e)[-1500:])
+        return
+    ctx.cov["select_sublist_generated_vs_impl_agree"] = len(cases) - len(bad)
+    for i in bad[:5]:
+        ctx.broken.append("correspondence:GenSelectSublist.select_sublist_gen vs engine_builtin._select_sublist on %r" % (metas[i],))
 
 
 # ------------------------------------------------------------------ whole programs
@@ -452,11 +482,18 @@ def run(ctx):
                        "20% recursive goals over digraphs with cycles (cyclic findall_target, least-model reading) "
                        "under findall/3, all/3, all_or_none/3: every recorded builtin call is compared with ModelBranches and judged by exhaustive assignments: "
                        "non-trivial = >=3 proofs and >=3 output lists")
-    ctx.assumptions += ["hand model of _select_sublist tied by sampled differential runs",
+    ctx.assumptions += ["_select_sublist / BaseFormula.negate: translated from the source on every run (gen/c19_select_sublist.py, unverified "
+                        "fail-closed glue + SelectPrelude.v readings of the Python constructs) and PROVED equal to the hand model; "
+                        "hand and generated model additionally tied by sampled differential runs",
                         "hand model of enumerate_branches / get_node_multiplicity / _builtin_findall_base / _builtin_all tied on recorded builtin calls; "
                         "target keys (copy_node, add_and) abstracted, their builder-correctness hypothesis judged per call",
                         "findall order = stable sort by mx (the code's heuristic), not Prolog order",
                         "harness-side world enumerator (Fractions) is the judge for whole programs"]
+    try:
+        generate(ctx)
+    except Exception as e:  # translator failed closed: recorded, the judges below still run
+        ctx.broken.append("translator:gen/c19_select_sublist.py: %s" % (str(e)[:300],))
+        ctx.notes.append(str(e))
     ctx.prove("C19/Props.v")
     run_select_sublist(ctx)
     run_machinery(ctx)
